@@ -180,7 +180,82 @@ def c15(ctx):
     R.r_sentinel(ctx, db, e, "Quantile", ctor_args=quantile_ctor)
 
 
+def hist_types(ctx, db):
+    out = []
+    for t, ln in HIST_TYPES:
+        if ctx.tier == "quick" and (ln > 4 and t != "hist::Histogram"):
+            continue
+        e = Est(db, t)
+        if e.exists():
+            out.append((e, ln, None))
+    return out
+
+
+def hist_const_types(ctx):
+    if "A" not in cfgs(ctx):
+        return None, []
+    dba = ctx.db("A")
+    e = Est(dba, "histogram_const::Histogram")
+    if not e.exists():
+        return dba, []
+    lens = (1, 3) if ctx.tier == "quick" else (1, 2, 3, 4, 10)
+    return dba, [(e, ln, {"LEN": ln}) for ln in lens]
+
+
+def c06(ctx):
+    import hist_rules as H
+    db = ctx.db("B")
+    n = 0
+    for e, ln, consts in hist_types(ctx, db):
+        n += 1
+        H.r_find_add(ctx, db, e, ln, consts)
+    dba, hs = hist_const_types(ctx)
+    for e, ln, consts in hs:
+        n += 1
+        H.r_find_add(ctx, dba, e, ln, consts)
+    ctx.floor("histogram instantiations analysed (find/add)", n, 6)
+    ctx.notes.append("decided for strictly increasing edges under the documented contract of [T]::binary_search_by; with repeated edges the bin "
+                     "returned for a sample equal to the repeated edge depends on which equal index the standard library returns (unspecified)")
+
+
+def c12(ctx):
+    import hist_rules as H
+    db = ctx.db("B")
+    n = 0
+    for e, ln, consts in hist_types(ctx, db):
+        if ln <= 4 or ctx.tier == "thorough":
+            n += H.r_from_ranges(ctx, db, e, ln, consts)
+        H.r_const_width(ctx, db, e, ln, consts)
+    dba, hs = hist_const_types(ctx)
+    for e, ln, consts in hs:
+        if ln <= 4:
+            n += H.r_from_ranges(ctx, dba, e, ln, consts)
+        H.r_const_width(ctx, dba, e, ln, consts)
+    ctx.floor("abstract paths of from_ranges compared with the C12 table", n, 60)
+
+
+def c13(ctx):
+    import hist_rules as H
+    db = ctx.db("B")
+    n = 0
+    for e, ln, consts in hist_types(ctx, db):
+        n += 1
+        H.r_merge_addassign(ctx, db, e, ln, consts)
+        H.r_scale_reset(ctx, db, e, ln, consts)
+        H.r_iter_views(ctx, db, e, ln, consts)
+    dba, hs = hist_const_types(ctx)
+    for e, ln, consts in hs:
+        n += 1
+        H.r_merge_addassign(ctx, dba, e, ln, consts)
+        H.r_scale_reset(ctx, dba, e, ln, consts)
+        H.r_iter_views(ctx, dba, e, ln, consts)
+    ctx.floor("histogram instantiations analysed (merge/views)", n, 6)
+
+
 PROPS = {
+    "C06": {"run": c06, "level": "other", "explanation": "find/add"},
+    "C12": {"run": c12, "level": "other", "explanation": "construction"},
+    "C13": {"run": c13, "level": "proof", "explanation": "merge/views"},
     "C05": {"run": c05, "level": "other", "explanation": "P2 step"},
     "C07": {"run": c07, "level": "other", "explanation": "small sample"},
     "C15": {"run": c15, "level": "other", "explanation": "bookkeeping"},
